@@ -370,6 +370,44 @@ func ruleClientCache(c *Ctx) {
 			}
 		}
 	}
+	if !hit {
+		// `if c.client == nil { create } ; return c.client, nil`: from the non-nil edge of
+		// the cache test every path reaches such a return without passing a store
+		isGoodRet := func(n *Node) bool {
+			rs, ok := n.Ast.(*ast.ReturnStmt)
+			return ok && len(rs.Results) == 2 && SelField(cinfo, rs.Results[0]) == clientF && isNilIdent(cinfo, rs.Results[1])
+		}
+		isStore := func(n *Node) bool {
+			for _, st := range stores {
+				if st == n {
+					return true
+				}
+			}
+			return false
+		}
+		for _, n := range cg.Nodes {
+			for _, e := range n.Succs {
+				at, isAt := edgeAtom(cinfo, e)
+				if !isAt || at.Kind != "nil" || at.Op != token.NEQ || SelField(cinfo, at.X) != clientF {
+					continue
+				}
+				if isGoodRet(e.To) {
+					hit = true
+					continue
+				}
+				seen := cg.Reach([]*Node{e.To}, isGoodRet, nil)
+				okPath := !isStore(e.To)
+				for x := range seen {
+					if x == cg.Exit || x == cg.Abort || isStore(x) {
+						okPath = false
+					}
+				}
+				if okPath {
+					hit = true
+				}
+			}
+		}
+	}
 	if hit {
 		c.R.Hold("R-ONCE", p.Pos(cf.Node()), cf.Name, "cache hit returns Client.client", "", true)
 	} else {
